@@ -44,7 +44,7 @@ def strategy(tier):
         "size": size,
         "size2": size,
         "dpi": st.one_of(st.just(72.0), st.integers(36, 600).map(float), st.floats(36, 600).map(lambda x: round(x, 2))),
-        "bad_font": st.one_of(st.integers(-5, 0), st.integers(11, 40)),
+        "bad_font": st.one_of(st.integers(-5, 0), st.integers(11, 40), st.sampled_from([1.0, 4.0, 9.0, 10.0, 2.5, 0.5])),   # also float "numbers"
         "bad_name": st.sampled_from(["Times", "arial", "Comic Sans", "", "Courier", "Times New Roman "]),
         "bad_unit": st.sampled_from(["cm", "pt", "IN", "", "inch", "twip"]),
     })
